@@ -564,3 +564,25 @@ Lemma saved_bytes_load_lemma c raises locals items :
   forallb (representable c) (dump_items items) = true ->
   load_items raises locals (decode_repl c (encode_repl c (dump_items items))) = Ok items.
 Proof. intros S R H. rewrite (codec_roundtrip_lemma c _ H). apply dump_load_inverse_lemma; assumption. Qed.
+
+(* ---------------------------------------------------------------- temporary names *)
+
+Lemma span_dot_none l : forall acc, ~ In DOT l -> span_dot l acc = None.
+Proof.
+  induction l as [|x l IH]; intros acc H; [reflexivity|]. cbn [span_dot].
+  destruct (x =? DOT) eqn:E; [apply Z.eqb_eq in E; exfalso; apply H; left; auto|].
+  apply IH. intros X. apply H. right. exact X.
+Qed.
+
+(* a file name without a dot -- such as the names mkstemp() chooses ("tmp" + 8 characters of
+   [a-z0-9_]) -- is never listed as a playlist, whatever else is in the directory: a save in
+   progress, or interrupted by a crash, never shows a ghost playlist *)
+Lemma no_dot_not_listed_lemma s : ~ In DOT s -> listed_b s = false.
+Proof.
+  intros H. unfold listed_b, suffix, split_suffix.
+  rewrite span_dot_none by (intros X; apply H, in_rev; exact X). reflexivity.
+Qed.
+
+Lemma as_list_ignores_temp_lemma d tmp txt :
+  ~ In DOT tmp -> as_list ((tmp, txt) :: d) = as_list d.
+Proof. intros H. unfold as_list. cbn [filter fst]. rewrite (no_dot_not_listed_lemma tmp H). reflexivity. Qed.
